@@ -364,3 +364,203 @@ theorem strictTotal_of_distinct_keys (ords : List OrdItem) (rows : List Row)
    fun a ha b hb hne => rowLess_total ords a b (h a ha b hb hne)⟩
 
 end LinVerif.RootMerge
+
+namespace LinVerif.RootMerge
+
+/-! ### total preorders: ties allowed -/
+
+/-- `less` is the strict part of a total preorder (a strict weak order) -/
+structure StrictWeak (less : Row → Row → Bool) : Prop where
+  irrefl : ∀ a, less a a = false
+  trans : ∀ a b c, less a b = true → less b c = true → less a c = true
+  negtrans : ∀ a b c, less a b = false → less b c = false → less a c = false
+
+theorem StrictWeak.asymm {less : Row → Row → Bool} (h : StrictWeak less) (a b : Row)
+    (hab : less a b = true) : less b a = false := by
+  by_contra hc
+  have hba : less b a = true := by simpa using hc
+  have := h.trans a b a hab hba
+  rw [h.irrefl a] at this; cases this
+
+theorem exists_min_w (less : Row → Row → Bool) (K : List Row) (hK : K ≠ []) (ho : StrictWeak less) :
+    ∃ w ∈ K, ∀ e ∈ K, less e w = false := by
+  induction K with
+  | nil => exact absurd rfl hK
+  | cons x xs ih =>
+    by_cases hxs : xs = []
+    · subst hxs
+      exact ⟨x, List.mem_cons_self, fun e he => by
+        have : e = x := by simpa using he
+        subst this; exact ho.irrefl e⟩
+    · obtain ⟨w, hw, hmin⟩ := ih hxs
+      by_cases hl : less x w = true
+      · refine ⟨x, List.mem_cons_self, fun e he => ?_⟩
+        rcases List.mem_cons.mp he with rfl | he
+        · exact ho.irrefl _
+        · by_contra hc
+          have hc' : less e x = true := by simpa using hc
+          have := ho.trans e x w hc' hl
+          rw [hmin e he] at this; cases this
+      · refine ⟨w, List.mem_cons_of_mem _ hw, fun e he => ?_⟩
+        rcases List.mem_cons.mp he with rfl | he
+        · simpa using hl
+        · exact hmin e he
+
+theorem heapRoot_spec_w (less : Row → Row → Bool) (K : List Row) (hK : K ≠ []) (ho : StrictWeak less) :
+    ∃ w, heapRoot less K = some w ∧ w ∈ K ∧ ∀ e ∈ K, less e w = false := by
+  obtain ⟨w0, hw0, hmin0⟩ := exists_min_w less K hK ho
+  unfold heapRoot
+  cases hf : K.find? (fun w => K.all (fun e => !less e w)) with
+  | none =>
+    have := List.find?_eq_none.mp hf w0 hw0
+    simp only [List.all_eq_true, Bool.not_eq_true'] at this
+    exact absurd hmin0 (by simpa using this)
+  | some w =>
+    refine ⟨w, rfl, List.mem_of_find?_eq_some hf, ?_⟩
+    have := List.find?_some hf
+    simpa using this
+
+/-- `K` is a valid "first `limit` of a sort": no dropped row is strictly better than a kept one -/
+structure IsTopW (less : Row → Row → Bool) (limit : Nat) (P K : List Row) : Prop where
+  nodup : K.Nodup
+  sub : ∀ x ∈ K, x ∈ P
+  len : K.length ≤ limit
+  full : K.length < limit → ∀ y ∈ P, y ∈ K
+  dom : ∀ x ∈ K, ∀ y ∈ P, y ∉ K → less x y = false
+
+theorem isTopW_step (less : Row → Row → Bool) (limit : Nat) (P K : List Row) (r : Row)
+    (ho : StrictWeak less) (hr : r ∉ P) (h : IsTopW less limit P K) :
+    IsTopW less limit (P ++ [r]) (topNAdd less limit K r) := by
+  have hrK : r ∉ K := fun hk => hr (h.sub r hk)
+  have memP : ∀ x ∈ P, x ∈ P ++ [r] := fun x hx => List.mem_append_left _ hx
+  have memr : r ∈ P ++ [r] := List.mem_append_right _ List.mem_cons_self
+  unfold topNAdd
+  by_cases hfull : K.length ≥ limit
+  · rw [if_pos hfull]
+    have hlen : K.length = limit := Nat.le_antisymm h.len hfull
+    by_cases hK : K = []
+    · subst hK
+      have : heapRoot less [] = none := rfl
+      rw [this]
+      exact ⟨List.nodup_nil, (fun x hx => by cases hx), (by simp),
+        (fun hl => by simp at hlen; omega), (fun x hx => by cases hx)⟩
+    · obtain ⟨w, hroot, hwK, hmin⟩ := heapRoot_spec_w less K hK ho
+      rw [hroot]
+      dsimp only
+      by_cases hl : less w r = true
+      · rw [if_pos hl]
+        have hmem := fun x => mem_replaceFirst K w r x h.nodup hwK
+        refine ⟨nodup_replaceFirst K w r h.nodup hwK hrK, ?_, ?_, ?_, ?_⟩
+        · intro x hx
+          rcases (hmem x).mp hx with rfl | ⟨hx, -⟩
+          · exact memr
+          · exact memP x (h.sub x hx)
+        · rw [length_replaceFirst]; exact h.len
+        · intro hlt; rw [length_replaceFirst] at hlt; omega
+        · intro x hx y hy hyK
+          have hyK' : ¬ (y = r ∨ (y ∈ K ∧ y ≠ w)) := fun hh => hyK ((hmem y).mpr hh)
+          have hyr : y ≠ r := fun e => hyK' (Or.inl e)
+          have hyP : y ∈ P := by
+            rcases List.mem_append.mp hy with hh | hh
+            · exact hh
+            · exact absurd (by simpa using hh) hyr
+          -- y is w itself, or y was already dropped (then w is not less than y)
+          have hwy : less w y = false := by
+            by_cases hyK0 : y ∈ K
+            · have : y = w := by by_contra hne; exact hyK' (Or.inr ⟨hyK0, hne⟩)
+              rw [this]; exact ho.irrefl w
+            · exact h.dom w hwK y hyP hyK0
+          rcases (hmem x).mp hx with rfl | ⟨hxK, _⟩
+          · -- x = r: less r y would give less w y
+            by_contra hc
+            have hry : less x y = true := by simpa using hc
+            have := ho.trans w x y hl hry
+            rw [hwy] at this; cases this
+          · -- x kept before: not less than w, w not less than y
+            exact ho.negtrans x w y (hmin x hxK) hwy
+      · rw [if_neg hl]
+        have hwr : less w r = false := by simpa using hl
+        refine ⟨h.nodup, fun x hx => memP x (h.sub x hx), h.len, fun hlt => by omega, ?_⟩
+        intro x hxK y hy hyK
+        rcases List.mem_append.mp hy with hyP | hyr
+        · exact h.dom x hxK y hyP hyK
+        · have : y = r := by simpa using hyr
+          subst this
+          exact ho.negtrans x w y (hmin x hxK) hwr
+  · rw [if_neg hfull]
+    have hlt : K.length < limit := by omega
+    have hall := h.full hlt
+    refine ⟨?_, ?_, ?_, ?_, ?_⟩
+    · exact List.nodup_append.mpr ⟨h.nodup, by simp, by
+        intro a ha b hb; simp at hb; subst hb; intro e; exact hrK (e ▸ ha)⟩
+    · intro x hx
+      rcases List.mem_append.mp hx with hh | hh
+      · exact memP x (h.sub x hh)
+      · have : x = r := by simpa using hh
+        subst this; exact memr
+    · simp; omega
+    · intro _ y hy
+      rcases List.mem_append.mp hy with hh | hh
+      · exact List.mem_append_left _ (hall y hh)
+      · exact List.mem_append_right _ hh
+    · intro x _ y hy hyK
+      exfalso; apply hyK
+      rcases List.mem_append.mp hy with hh | hh
+      · exact List.mem_append_left _ (hall y hh)
+      · exact List.mem_append_right _ hh
+
+theorem isTopW_topN_aux (less : Row → Row → Bool) (limit : Nat) (P rest K : List Row)
+    (hn : (P ++ rest).Nodup) (ho : StrictWeak less) (h : IsTopW less limit P K) :
+    IsTopW less limit (P ++ rest) (rest.foldl (topNAdd less limit) K) := by
+  induction rest generalizing P K with
+  | nil => simpa using h
+  | cons r rest ih =>
+    have e : P ++ r :: rest = (P ++ [r]) ++ rest := by simp
+    rw [List.foldl_cons, e]
+    rw [e] at hn
+    apply ih (P ++ [r]) _ hn
+    apply isTopW_step less limit P K r ho _ h
+    have := (List.nodup_append.mp hn).1
+    have := (List.nodup_append.mp this).2.2
+    intro hr
+    exact this r hr r List.mem_cons_self rfl
+
+theorem isTopW_topN (less : Row → Row → Bool) (limit : Nat) (rows : List Row) (hn : rows.Nodup)
+    (ho : StrictWeak less) : IsTopW less limit rows (topN less limit rows) := by
+  have := isTopW_topN_aux less limit [] rows [] (by simpa using hn) ho
+    ⟨List.nodup_nil, (fun x hx => by cases hx), (by simp), (fun _ y hy => by cases hy),
+      (fun x hx => by cases hx)⟩
+  simpa [topN] using this
+
+/-- `topNHeap.Less` (exact comparison) is a strict weak order on all rows -/
+theorem rowLess_negtrans (ords : List OrdItem) (a b c : Row) (h1 : rowLess ords a b = false)
+    (h2 : rowLess ords b c = false) : rowLess ords a c = false := by
+  induction ords with
+  | nil => rfl
+  | cons o os ih =>
+    rw [rowLess_cons] at h1 h2 ⊢
+    by_cases x1 : signedKey o a > signedKey o b
+    · simp [x1] at h1
+    · by_cases x2 : signedKey o a < signedKey o b
+      · by_cases y1 : signedKey o b > signedKey o c
+        · simp [y1] at h2
+        · have e1 : ¬ signedKey o a > signedKey o c := by omega
+          have e2 : signedKey o a < signedKey o c := by omega
+          simp [e1, e2]
+      · simp only [x1, x2, if_false] at h1
+        by_cases y1 : signedKey o b > signedKey o c
+        · simp [y1] at h2
+        · by_cases y2 : signedKey o b < signedKey o c
+          · have e1 : ¬ signedKey o a > signedKey o c := by omega
+            have e2 : signedKey o a < signedKey o c := by omega
+            simp [e1, e2]
+          · simp only [y1, y2, if_false] at h2
+            have e1 : ¬ signedKey o a > signedKey o c := by omega
+            have e2 : ¬ signedKey o a < signedKey o c := by omega
+            simp only [e1, e2, if_false]
+            exact ih h1 h2
+
+theorem rowLess_strictWeak (ords : List OrdItem) : StrictWeak (rowLess ords) :=
+  ⟨rowLess_irrefl ords, rowLess_trans ords, rowLess_negtrans ords⟩
+
+end LinVerif.RootMerge
